@@ -19,7 +19,11 @@ def xml_ok(c):
 
 
 def hostile_char(rng):
-    r = rng.below(12)
+    r = rng.below(13)
+    if r == 12:
+        # blanks other than U+0020 (typed inside a quoted string they are content): whatever stands for them in the output
+        # has to be something an XML parser without a DTD knows
+        return rng.choice(gen.UNI_SPACES + "\t\u00a0\u00a0\u2009\u00ad")
     if r == 0:
         return chr(rng.range(1, 31))
     if r == 1:
